@@ -151,7 +151,7 @@ Lemma parse_next_frames : forall (fs : list wframe) (fuel : nat) (s : src) (cl :
 Proof.
   induction fs as [|f fs IH]; intros fuel s cl tail Hb Hw Hd Hf.
   - cbn. intros ->. cbn in Hd. destruct fuel; [cbn in Hf; lia|].
-    cbn [parse_next]. rewrite read_varint_nil by exact Hd. rewrite Hd. cbn [truncated andb]. exists s. auto using same_end_refl.
+    cbn [parse_next]. rewrite read_varint_nil by exact Hd. exists s. auto using same_end_refl.
   - destruct fuel as [|fuel]; [lia|]. cbn [length] in Hf.
     inversion Hw as [|? ? Hwf Hwr]; subst.
     destruct f as [th lh p|t th lh p]; cbn [next_data].
@@ -226,11 +226,7 @@ Proof.
   - (* nothing left: the terminal error *)
     symmetry in Hd. apply app3_nil in Hd as (E1 & E2 & E3). subst cur tail.
     apply (wire_nil fs Hw) in E2. subst fs.
-    rewrite src_read_empty by exact Hdata. cbv zeta.
-    assert (Hc : oerr_is_eof (Some (s_fin (x_src x))) &&
-                 (0 <? x_rem (set_rem (set_src x (x_src x)) (x_rem x - zlen (@nil Z)))) = false).
-    { cbn [x_rem set_rem]. rewrite Hrem. change (zlen (@nil Z)) with 0. cbn. apply andb_false_r. }
-    rewrite Hc.
+    rewrite src_read_empty by exact Hdata.
     exists [], (Some (s_fin (x_src x))), (set_rem (set_src x (x_src x)) (x_rem x - zlen (@nil Z))), [].
     split; [reflexivity|]. split.
     { right. repeat split; auto; cbn; try rewrite Hrem; try rewrite Hdata; auto. }
@@ -239,7 +235,7 @@ Proof.
     + (* zero-size read *)
       assert (Hr : src_read (x_src x) m = ([], None, x_src x)).
       { unfold src_read. rewrite Hdata. destruct (Z.leb_spec m 0); [reflexivity|lia]. }
-      rewrite Hr. cbv zeta. cbn [oerr_is_eof andb].
+      rewrite Hr.
       exists [], None, (set_rem (set_src x (x_src x)) (x_rem x - zlen (@nil Z))), cur.
       split; [reflexivity|]. split.
       { left. split; [reflexivity|]. repeat split; cbn; auto.
@@ -250,16 +246,11 @@ Proof.
     + destruct (src_read_some (x_src x) m) as (n & e & s1 & Hr & Hn1 & Hn2 & Hn3 & Hd1 & Hse & He);
         [rewrite Hdata; discriminate | lia |].
       pose proof Hse as [Hse1 Hse2].
-      rewrite Hr. cbv zeta. rewrite Hdata in *.
+      rewrite Hr. rewrite Hdata in *.
       assert (Hnc : (n <= length cur)%nat) by (unfold zlen in Hrem; lia).
       rewrite Hd in *. rewrite firstn_app_le by exact Hnc. rewrite skipn_app_le in Hd1 by exact Hnc.
       assert (Hz : x_rem x - zlen (firstn n cur) = zlen (skipn n cur)).
       { rewrite zlen_firstn by exact Hnc. rewrite zlen_skipn, Nat.min_l by exact Hnc. lia. }
-      assert (Hc : oerr_is_eof e &&
-                   (0 <? x_rem (set_rem (set_src x s1) (x_rem x - zlen (firstn n cur)))) = false).
-      { cbn [x_rem set_rem]. rewrite Hz. destruct He as [->|(He1 & _)]; [reflexivity|].
-        rewrite Hd1 in He1. apply app3_nil in He1 as (E1 & _). rewrite E1. apply andb_false_r. }
-      rewrite Hc.
       exists (firstn n cur), e, (set_rem (set_src x s1) (x_rem x - zlen (firstn n cur))), (skipn n cur).
       split; [reflexivity|].
       assert (Hsinv : sinvT (set_rem (set_src x s1) (x_rem x - zlen (firstn n cur))) (skipn n cur) fs tail).
